@@ -480,3 +480,36 @@ Proof.
   - intros s Hs. now rewrite any_normalise_sweep.
   - reflexivity.
 Qed.
+
+(* ------------------------------------------------------------------ the two named stopping paths are both reachable and differ *)
+Section Exits.
+  Variable St : Type.
+  Variables (sweep normalise : St -> St).
+  Definition step (nf : bool) (s : St) : St := norm_if St normalise nf (sweep s).
+  Fixpoint steps (n : nat) (nf : bool) (s : St) : St := match n with O => s | S k => steps k nf (step nf s) end.
+  (* cap exit: no test ever fires => exactly n sweeps, each followed by the requested normalisation *)
+  Lemma cp_loop_cap_exit nf tol_set n : forall it decisions s,
+    Forall (fun d => fst d = false /\ snd d = false) decisions ->
+    cp_loop St sweep normalise nf tol_set it n decisions s = steps n nf s.
+  Proof.
+    induction n as [|n IH]; intros it decisions s H; [reflexivity|].
+    cbn [cp_loop steps].
+    assert (Hd : hd (false, false) decisions = (false, false) \/ exists a b, hd (false, false) decisions = (a, b) /\ a = false /\ b = false).
+    { destruct H as [|[a b] l [Ha Hb] _]; [now left | right; simpl in *; eauto]. }
+    assert (E : fst (hd (false, false) decisions) = false /\ snd (hd (false, false) decisions) = false).
+    { destruct Hd as [->|(a & b & -> & -> & ->)]; split; reflexivity. }
+    destruct E as [E1 E2]. rewrite E1, E2, andb_false_r. apply IH. destruct H; [constructor | assumption].
+  Qed.
+  (* tol = 0 (falsy): the convergence test is never evaluated, whatever the decisions say *)
+  Lemma cp_loop_tol_unset nf n : forall it decisions s, no_callback_stop decisions ->
+    cp_loop St sweep normalise nf false it n decisions s = steps n nf s.
+  Proof.
+    induction n as [|n IH]; intros it decisions s H; [reflexivity|].
+    cbn [cp_loop steps]. rewrite (no_callback_stop_hd _ H). cbn [andb]. apply IH. now apply no_callback_stop_tl.
+  Qed.
+  (* convergence exit: the test fires as soon as it is evaluated (iteration 1) => exactly two sweeps, whatever the cap >= 2 *)
+  Lemma cp_loop_convergence_exit nf n d0 decisions s : fst d0 = false ->
+    fst (hd (false, false) decisions) = false -> snd (hd (false, false) decisions) = true ->
+    cp_loop St sweep normalise nf true 0 (S (S n)) (d0 :: decisions) s = step nf (step nf s).
+  Proof. intros H0 H1 H2. cbn [cp_loop hd tl]. rewrite H0. cbn [andb Nat.leb]. rewrite H1, H2. reflexivity. Qed.
+End Exits.
